@@ -728,6 +728,9 @@ class CallMixin:
                 raise
         if name == "type":
             return Opaque("type()")
+        if name == "id" and len(args) == 1 and isinstance(args[0], SV) and args[0].ty.name in ("Ref", "Opt"):
+            v = args[0] if args[0].ty.name == "Ref" else ctx.unopt(args[0], "TypeError", "id(None) is not modelled")
+            return SV(INT, v.t)       # identity of a modelled object == its reference
         if name in ("repr", "id", "hasattr", "callable", "iter", "next", "reversed", "super", "open", "map", "filter", "sum"):
             return self.opaque_call(name, args, kwargs)
         # unknown dotted extern (module function): opaque result; containers passed may be mutated
